@@ -7,6 +7,7 @@ import (
 	"go/printer"
 	"go/token"
 	"os"
+	"path/filepath"
 	"regexp"
 
 	"github.com/reedom/convergen/pkg/builder"
@@ -34,6 +35,27 @@ type Parser struct {
 const parserLoadMode = packages.NeedName | packages.NeedImports | packages.NeedDeps |
 	packages.NeedTypes | packages.NeedSyntax | packages.NeedTypesInfo
 
+// outputOverlay hides whatever is at the output path from the go command, which reads the package
+// clause of every file in the directory: a previous output that is truncated inside its package name,
+// or that was generated before the package was renamed, would otherwise change what is loaded.
+// The file is presented as an empty file of the setup file's package.
+func outputOverlay(srcPath, dstPath string) map[string][]byte {
+	absSrc, err1 := filepath.Abs(srcPath)
+	absDst, err2 := filepath.Abs(dstPath)
+	if err1 != nil || err2 != nil || filepath.Dir(absSrc) != filepath.Dir(absDst) {
+		return nil
+	}
+	if _, err := os.Stat(absDst); err != nil {
+		return nil
+	}
+	file, err := parser.ParseFile(token.NewFileSet(), absSrc, nil, parser.PackageClauseOnly)
+	if err != nil {
+		// The load below reports the syntax error with its position.
+		return nil
+	}
+	return map[string][]byte{absDst: []byte("package " + file.Name.Name + "\n")}
+}
+
 // NewParser returns a new parser for convergen annotations.
 func NewParser(srcPath, dstPath string) (*Parser, error) {
 	fileSet := token.NewFileSet()
@@ -50,6 +72,7 @@ func NewParser(srcPath, dstPath string) (*Parser, error) {
 		Mode:       parserLoadMode,
 		BuildFlags: []string{"-tags", buildTag},
 		Fset:       fileSet,
+		Overlay:    outputOverlay(srcPath, dstPath),
 		ParseFile: func(fset *token.FileSet, filename string, src []byte) (*ast.File, error) {
 			stat, err := os.Stat(filename)
 			if err != nil {
